@@ -50,7 +50,8 @@ def b(v):
 def run(case):
     if case[0] == "eq":
         try:
-            x, y = build(case[1]), build(case[2])
+            x = build(case[1])
+            y = list(x) if case[2] == ["N", "100"] and isinstance(x, list) else build(case[2])
             out = ["ok", b(x == y), b(y == x), b(x != y), b(y != x)]
             flags = []
             for o in (x, y):
@@ -64,6 +65,15 @@ def run(case):
                         d = o.destructive_copy()
                         if not (d == o):
                             flags.append("destructive-copy-unequal")
+                    # a copy that gets a NEW parameter on one of its leaves after the comparisons above differs from its source
+                    c2 = o.copy()
+                    lf = c2
+                    while not isinstance(lf, ce.Chronon) and len(lf):
+                        lf = lf[0]
+                    if isinstance(lf, ce.Chronon):
+                        lf.added_later = 1
+                        if c2 == o or o == c2 or not (c2 != o):
+                            flags.append("copy-with-a-new-parameter-still-equal")
                     # a copy whose tempo trajectory is edited IN PLACE at time 0 differs in its tempo: it must compare
                     # unequal (the comparisons above have already read the tempo of `o` and of its copy)
                     if isinstance(c.tempo, cp.FlexTempo) and len(c.tempo) > 0:
